@@ -79,7 +79,16 @@ func init() {
 				c09wideFork(out, idx, rng, tier, stats)
 				return
 			}
-			runProgCase(out, "c09g", idx, rng, tier, stats, genOptsC01(idx, tier))
+			// every second generated program also has a LAGGING subscriber: it keeps the trace values and reads them
+			// only when the run is over; what it reads then must be what the prompt subscriber read on arrival
+			o := genOptsC01(idx, tier)
+			if idx%2 == 0 {
+				eng.LagSubscriber = true
+				defer func() { eng.LagSubscriber = false }()
+				o.lagCheck = true
+				stats["cases_with_lagging_subscriber"]++
+			}
+			runProgCase(out, "c09g", idx, rng, tier, stats, o)
 		},
 	}
 }
